@@ -345,6 +345,15 @@ fn main() {
     let mut a_files = Vec::new();
     let mut last_w: Option<BufWriter<File>> = None;
     let mut ai_first: Vec<String> = Vec::with_capacity(sample.len());
+    // before the first reverse lookup of every third sampled address a caller supplies a
+    // registration of its own for that address (the optional argument); it may affect the
+    // answer of that call only
+    let supplied = ["F-GSPZ", "N12345", "", "D-AIZZ", "HL7200", "JA8089", "G-EUPT"];
+    for (i, &h) in sample.iter().enumerate().skip(1).step_by(3) {
+        let hex = format!("{:06x}", h);
+        let reg = supplied[(i / 3) % supplied.len()];
+        let _ = catch_unwind(|| aircraft_information(&hex, Some(reg)).map(|x| x.registration));
+    }
     let mut a_sample = Again::new("sample_ascending");
     let mut before = 0u32;
     for (k, part) in sample.chunks(per).enumerate() {
@@ -372,6 +381,21 @@ fn main() {
     {
         let mut a = Again::new("ai_descending");
         for (i, &h) in sample.iter().enumerate().rev() {
+            let ai = ai_field(h);
+            a.note(h, before, ai == ai_first[i], &|| ai_first[i].clone(), &|| ai.clone());
+            before = h;
+        }
+        agains.push(a);
+    }
+    // ---- sample pass, stride 3: a caller-supplied registration first (the optional argument:
+    // foreign / own / empty text), then the reverse lookup once more - it must still be the
+    // function of the address that the first pass recorded
+    {
+        let mut a = Again::new("ai_after_supplied");
+        for (i, &h) in sample.iter().enumerate().step_by(3) {
+            let hex = format!("{:06x}", h);
+            let reg = supplied[(i / 3) % supplied.len()];
+            let _ = catch_unwind(|| aircraft_information(&hex, Some(reg)).map(|x| x.registration));
             let ai = ai_field(h);
             a.note(h, before, ai == ai_first[i], &|| ai_first[i].clone(), &|| ai.clone());
             before = h;
